@@ -205,6 +205,13 @@ def l3(ctx):
                     ctx.instance('%s builds %s' % (key, s['rv']['name']))
                     if key not in allowed:
                         ctx.violate(key, None, 'a %s handle is constructed outside the clone family / channel constructors (count not adjusted)' % s['rv']['name'], at=s.get('at'), sig='construct:' + canon(s['rv']['name']))
+    # a handle must never be forgotten / wrapped in ManuallyDrop inside the crate: its Drop is what keeps the count right
+    for key, b in ctx.facts.bodies.items():
+        for bb, t in b.all_calls():
+            fn = t.get('fn')
+            if fn and canon(fn['path']) in ('std::mem::forget', 'std::mem::ManuallyDrop::new', 'std::mem::ManuallyDrop::take') and any(
+                    any((hh + '<') in a for hh in fam.HANDLES) for a in fn['args']):
+                ctx.violate(key, None, 'a channel handle is forgotten (%s): its count is never given back' % canon(fn['path']), at=t.get('at'), sig='forget-handle')
     for name, sh, rh, bounded in constructors(ctx):
         b = ctx.body(name)
         if b is None:
